@@ -2,6 +2,7 @@ import Ptn.C03.Core
 import Ptn.C03.Tree
 import Ptn.C03.Value
 import Ptn.C03.CentreNorm
+import Ptn.C03.Whole
 /-! Property theorems for C03.  `Core.lean`: gauge machine for arbitrary distance tables + the
 Mathlib instances.  `Tree.lean`: `canon_gauge_tree` — for every well-formed tree and every centre
 the hypotheses of `canon_gauge` hold for the distance table of the C17 model, so every non-centre
